@@ -85,7 +85,25 @@ def generate(seed, tier):
         labs = list(range(20, 36)) if cfg["labels"] not in ("str", "numstr", "str16") else ["g%02d" % i for i in range(16)]
         m = rng.randint(10, 14)
         giant, rest = labs[:m], labs[m:m + 1]
-        pre = [{"op": "add_edge", "a": 0, "e": [giant[i], giant[i + 1]] + ([giant[(i + 5) % m]] if rng.random() < 0.3 and (i + 5) % m not in (i, i + 1) else [])} for i in range(m - 1)]
+        shape = rng.choice(["path", "block", "triangle-tail"])
+        if shape == "path":
+            pre = [{"op": "add_edge", "a": 0, "e": [giant[i], giant[i + 1]] + ([giant[(i + 5) % m]] if rng.random() < 0.3 and (i + 5) % m not in (i, i + 1) else [])} for i in range(m - 1)]
+        elif shape == "block":
+            # one dense block (a hyperedge of 6-8 nodes), pendant nodes hanging off one hub of the block, a tail behind one
+            # of them: the search frontier fills up with entries of the block while distant nodes are still undiscovered
+            b = rng.randint(6, 8)
+            hub = giant[rng.randrange(b)]
+            pre = [{"op": "add_edge", "a": 0, "e": giant[:b]}]
+            pend = giant[b:]
+            pre += [{"op": "add_edge", "a": 0, "e": [hub, x]} for x in pend[:2]]
+            pre += [{"op": "add_edge", "a": 0, "e": [pend[i], pend[i + 1]]} for i in range(1, len(pend) - 1)]
+            rng.shuffle(pre)
+        else:
+            # a small hyperedge with a long tail behind its last node
+            pre = [{"op": "add_edge", "a": 0, "e": giant[:3]}]
+            pre += [{"op": "add_edge", "a": 0, "e": [giant[i], giant[i + 1]]} for i in range(2, m - 1)]
+            if rng.random() < 0.5:
+                pre.reverse()
         pre.append({"op": "add_edge", "a": 0, "e": [rest[0]]})
         if cfg["weighted"]:
             for o in pre:
